@@ -26,4 +26,16 @@ structure LabColor where
 noncomputable def toLab (x y z xn yn zn : ℝ) : LabColor :=
   ⟨116 * f (y / yn) - 16, 500 * (f (x / xn) - f (y / yn)), 200 * (f (y / yn) - f (z / zn))⟩
 
+/-- L*a*b* → XYZ relative to white `(xn, yn, zn)`, as `ColorFromLAB` is written: the Y channel branches on
+`L > κ·ε = 8` (which is the same function as `finv ((L + 16)/116)`, see `yinv_eq`) -/
+noncomputable def yinv (L : ℝ) : ℝ := if L > 8 then ((L + 16) / 116) ^ 3 else L / kappa
+
+structure XYZColor where
+  x : ℝ
+  y : ℝ
+  z : ℝ
+
+noncomputable def fromLab (L a b xn yn zn : ℝ) : XYZColor :=
+  ⟨finv (a / 500 + (L + 16) / 116) * xn, yinv L * yn, finv ((L + 16) / 116 - b / 200) * zn⟩
+
 end Prism.Lab
